@@ -6,9 +6,13 @@ text/xml; paging; level=core) through werkzeug's test client over DictObjectStor
 LocalFileObjectStore, compared with the model after every request (response and store content).
 Oracle (independent of the model): a Python dict as reference repository answering the same history
 + generic probes (GET at Location after 201, GET after DELETE, GET after PUT, listing = keys, every
-listed object readable under its own id, pages following the cursor = listing)."""
+listed object readable under its own id, pages following the cursor = listing, pages of a listing filtered by
+idShort / semanticId = the matching objects of the listing, PUT of a well-formed same-class document onto a stored
+element = 204).  `tok` (all other attributes) is carried by description + semanticId + supplementalSemanticIds, so
+a replacement that takes over only some of them reads as another content (httpgen.sem_class)."""
 import json
 import logging
+import urllib.parse
 
 import common
 import httpgen as G
@@ -19,7 +23,8 @@ from httpgen import b64
 
 THEOREMS = ["C10_created_then_readable", "C10_duplicate_conflicts", "C10_unknown_not_found", "C10_read",
             "C10_deleted_then_gone", "C10_replaced_then_read", "C10_own_id_refuted", "C10_own_id_partial",
-            "C10_page_is_slice", "C10_paging", "C10_mutators_commit", "C10_example_history"]
+            "C10_page_is_slice", "C10_paging", "C10_filtered_page_submodels", "C10_filtered_page_shells",
+            "C10_filtered_page_example", "C10_filtered_paging", "C10_mutators_commit", "C10_example_history"]
 VO = ["theories/props/C10.vo", "theories/model/HttpObs.vo"]
 
 # identifiers: URL-hostile characters, non-ASCII, and pairs that differ only by Unicode normalisation (different
@@ -302,6 +307,9 @@ def gen_replace_history(rng, n):
     return out
 
 
+gen_tok_history = CS.tok_history
+
+
 def gen_refs_history(rng, n):
     """the submodel references of a shell: POST / list / DELETE by submodel id / redirect / PUT and DELETE of the
     submodel through the shell, over references with and without a referredSemanticId, to stored, missing and
@@ -407,7 +415,7 @@ def oracle_history(srv, backed, reqs, routes):
     for k, req in enumerate(reqs):
         addressed = None
         if req.get("path") and req.get("sm") and H.decode_label(req["sm"])[0] == "ok" and "id_shorts" in req["rule"]:
-            s0, _ = get_json(srv, f"{G.BASE}/submodels/{req['sm']}/submodel-elements/{req['path']}")
+            s0, stored_elem = get_json(srv, f"{G.BASE}/submodels/{req['sm']}/submodel-elements/{req['path']}")
             addressed = s0 == 200
         url, resp, exc = srv.fire(req)
         ep = srv.endpoint_of(req, url)
@@ -466,6 +474,11 @@ def oracle_history(srv, backed, reqs, routes):
                 if st == 204:
                     ref.pop(ident, None)
                     refs.pop(ident, None)
+        if ep == "put_submodel_submodel_elements_id_short_path" and addressed and val is not None and val["k"] == "elem" \
+                and not CS.renames(req) and isinstance(stored_elem, dict) and stored_elem.get("mt") == val["mt"] and st != 204:
+            # a reference repository replaces what it holds under the path by a well-formed document of the same class
+            fails.append((k, "replace", f"PUT of a well-formed {val['mt']} document onto the path of a stored {val['mt']} "
+                                        f"(same idShort) answered {st}, a reference repository replaces it (204)", ep))
         # ---- the submodel references of a shell: listed <-> addressable by the submodel identifier
         if ep in ("post_aas_submodel_refs", "delete_aas_submodel_refs_specific", "put_aas_submodel_refs_submodel",
                   "delete_aas_submodel_refs_submodel", "aas_submodel_refs_redirect") and req.get("aas"):
@@ -628,8 +641,71 @@ def oracle_history(srv, backed, reqs, routes):
                     cur = int(pg["cursor"])
                 if walked != ids:
                     fails.append((k, "paging", "pages following the cursor differ from the listing", ep))
+                # a filtered listing = the listing restricted to the matching objects, and paging through it visits
+                # exactly those (after requests that may have changed which top-level objects exist / how they are named)
+                if kd != "cd" and (kind == kd or ep in ("put_aas_submodel_refs_submodel", "delete_aas_submodel_refs_submodel")):
+                    bad = filtered_walks(srv, rule, items, kd, limits=(1, 2))
+                    if bad:
+                        fails.append((k, "filtered-paging", bad, ep))
     srv.cleanup()
     return fails
+
+
+SEM_QUERY = b64(json.dumps({"type": "ExternalReference", "keys": [{"type": "GlobalReference", "value": G.SEM_VALUE}]}))
+
+
+def filtered_walks(srv, rule, items, kd, limits):
+    """items: the whole (unfiltered) listing as abstract values, in listing order.  For every idShort that occurs (and
+    one that does not; for submodels also for the semanticId of the pool) and every limit: the pages of the filtered
+    listing, followed by the cursor until a page is empty, are the matching objects of the listing, each once, in
+    listing order - what a map from id to object answers.  -> None or a description of the first difference"""
+    filters = [("idShort=" + urllib.parse.quote(v, safe=""), [x.get("id") for x in items if x.get("ids") == v])
+               for v in sorted({x.get("ids") for x in items if x.get("ids")} | {"nope"})]
+    if kd == "sm":       # tok classes 1 and 2 carry the semanticId of the pool (httpgen.sem_class)
+        filters.append(("semanticId=" + SEM_QUERY, [x.get("id") for x in items if G.sem_class(x.get("tok", 0)) >= 1]))
+    for (flt, want) in filters:
+        for lim in limits:
+            seen, cur, steps = [], 0, 0
+            while steps < 60:
+                steps += 1
+                st, pg = get_json(srv, f"{G.BASE}{rule}?{flt}&limit={lim}&cursor={cur}")
+                if st != 200 or not isinstance(pg, dict) or not pg.get("items"):
+                    break
+                seen += [x.get("id") for x in pg["items"]]
+                cur = int(pg["cursor"])
+            if (sorted(seen) != sorted(want)) if srv.backed else (seen != want):      # directory order may differ between requests
+                return (f"GET {G.BASE}{rule}?{flt}&limit={lim}&cursor=0 and following the cursor visited {len(seen)} objects "
+                        f"({len(set(seen) & set(want))} of the {len(want)} matching ones, {len(seen) - len(set(seen))} twice); "
+                        f"the unfiltered listing holds {len(items)}")
+    return None
+
+
+def filtered_paging_oracle(srv, chk, rng):
+    """filter x paging on stores where matching and non-matching objects interleave: 9 submodels and 9 shells over
+    three idShorts (and the three semantics classes), every limit from 1 to beyond the listing size"""
+    sms = [{"k": "sm", "id": f"urn:flt:sm:{i}", "ids": rng.choice(["FA", "FB", "FC", None]), "tok": rng.randrange(1, 7), "quals": [], "elems": []}
+           for i in range(9)]
+    shs = [{"k": "shell", "id": f"urn:flt:aas:{i}", "ids": rng.choice(["FA", "FB", "FC", None]), "tok": 1, "refs": []} for i in range(9)]
+    objs = sms + shs
+    rng.shuffle(objs)
+    for backed in (False, True):
+        srv.reset(objs, [], backed)
+        for kd in ("sm", "shell"):
+            rule = RULE[kd][0]
+            st, page = get_json(srv, G.BASE + rule + "?limit=100")
+            items = page["items"] if st == 200 and isinstance(page, dict) and page.get("k") == "page" else []
+            if sorted(x.get("id") for x in items) != sorted(o["id"] for o in objs if o["k"] == kd):
+                chk.fail(f"C10:listing:{rule}", f"GET {rule}?limit=100 does not list the {len(objs) // 2} stored objects",
+                         {"how": "store filled with `objects`; GET the listing", "objects": objs, "backed": backed})
+                continue
+            bad = filtered_walks(srv, rule, items, kd, limits=(1, 2, 3, 4, 8, 9, 10, 100))
+            if bad:
+                chk.fail(f"C10:filtered-paging:{'submodels' if kd == 'sm' else 'shells'}", bad,
+                         {"how": "store filled with `objects` (tools/httpgen.py mk_obj); GET the unfiltered listing with limit=100, "
+                                 "then the filtered one with the limit and cursor=0 and with each returned cursor until a page is empty; "
+                                 "compare with the unfiltered listing restricted to the matching idShort / semanticId",
+                          "objects": objs, "backed": backed, "rule": rule, "semanticId_query": SEM_QUERY})
+    srv.cleanup()
 
 
 def paging_oracle(srv, chk, objs):
@@ -742,6 +818,10 @@ def run(chk):
         reqs = gen_list_history(rng, 16)
         hist.append((k % 2 == 1, reqs))
         plans.append(([], [], k % 2 == 1, reqs, False))
+    for k in range(max(8, nh // 12)):
+        reqs = gen_tok_history(rng, 24)
+        hist.append((k % 2 == 1, reqs))
+        plans.append(([], [], k % 2 == 1, reqs, False))
     for k in range(nh // 5):
         reqs = gen_attachment_history(rng, hl)
         hist.append((k % 2 == 1, reqs))
@@ -754,7 +834,7 @@ def run(chk):
         for (k, kind, text, ep) in oracle_history(srv, backed, reqs, ex["routes"]):
             r = reqs[k]
             chk.fail(f"C10:{kind}:{ep}:{r.get('cls')}", f"{r['method']} {H.url_of(r)}: {text}",
-                     c11.replay_dict([], [], backed, reqs[:k + 1], k))
+                     dict(c11.replay_dict([], [], backed, reqs[:k + 1], k), probe_after_the_last_request=text))
         for r in reqs:
             chk.count("class=" + r["cls"])
     for (label, backed, reqs, oracle_only) in CS.scenarios():
@@ -766,6 +846,7 @@ def run(chk):
     directed(srv, chk)
     big_objs, big_reqs = CS.big_listing()
     paging_oracle(srv, chk, big_objs)
+    filtered_paging_oracle(srv, chk, rng)
     plans.append((big_objs, [], False, big_reqs, False))
     n = c11.run_cases(chk, srv, ex, plans, "C10", prop="C10", model=model)
     chk.cov["requests_compared_with_model"] = n
@@ -780,7 +861,8 @@ def run(chk):
         "tools/c10.py, c11.py, httpcorr.py, httpgen.py, httpcases.py (generators, canonicalisers, reference repository), tools/common.py",
     ]
     chk.assumptions = ["body_id_matches (hypothesis of C10_own_id_partial): no PUT whose body carries another id than the URL (open finding)",
-                       "payloads are compared on the modelled attributes (id, idShort, one free attribute, qualifiers, nested elements, "
+                       "payloads are compared on the modelled attributes (id, idShort, one free attribute = description + semanticId + "
+                       "supplementalSemanticIds read together, qualifiers, nested elements, "
                        "File/Blob value and content type, submodel references, globalAssetId)"]
     return chk.finish(level="proof",
                       rule="seeded random histories of 30 (quick) / 40 (thorough) mostly valid requests over 3 submodel / 3 shell / 2 concept "
